@@ -59,7 +59,9 @@ PropClosed(n, evals, ssLeft, ve) ==
   /\ Abs(SeqSum(ve) - One) <= SumTol(n, evals)
 PropFinish(n, evals, ssLeft, isFull, ve) == PropVarexp(n, evals, ve) /\ (isFull => PropClosed(n, evals, ssLeft, ve))
 PropProject(err) == err <= TolAlg
-PropBack(err) == err <= TolAlg
+(* back-transformation, measured in units of |E0|: X itself is only representable to one ulp of its entries, which in those units is   *)
+(* repr (logged from the input alone; up to 1e-8 for locations 1e6 over spreads 0.02) - the identity cannot hold better than that      *)
+PropBack(err, repr) == err <= TolAlg + 4 * Min2(repr, 100000)
 
 (* how the present code happens to do it (switched off by PropOnly in the trace spec) *)
 ImplExtract(ev) == ev.dmodx <= TolAlg          \* model.dmodx column k = row norms of the library's own residual matrix
@@ -119,7 +121,7 @@ MFinish == /\ phase = "Fit" /\ (k = npc \/ (Fault = "early_finish" /\ k >= 1))
 
 MProject == /\ phase = "Finished" /\ \E e \in AlgVals : ok' = (ok /\ PropProject(e))
             /\ phase' = "Projected" /\ UNCHANGED <<n, c, scaling, npc, rank, tail, k, ssLeft, evals, truth>> /\ UNCHANGED svars
-MBack == /\ phase = "Projected" /\ \E e \in AlgVals : ok' = (ok /\ PropBack(e))
+MBack == /\ phase = "Projected" /\ \E e \in AlgVals : ok' = (ok /\ PropBack(e, 0))
          /\ phase' = "Idle" /\ UNCHANGED <<n, c, scaling, npc, rank, tail, k, ssLeft, evals, truth>> /\ UNCHANGED svars
 
 LNext == MFit \/ MExtract \/ MFinish \/ MProject \/ MBack
